@@ -5,9 +5,27 @@ ENV = os.path.join(os.path.dirname(os.path.dirname(os.path.abspath(__file__))), 
 UNIT = {
     "name": "char_macro",
     "env": [os.path.join(ENV, "char_macro_env.rs")],
-    "declared_trusted": {r"external_body": 3},
+    "declared_trusted": {r"external_body": 20},
     "items": [
         {"kind": "enum", "file": "bindgen/ir/var.rs", "name": "VarType"},
+        # C05 (a constant carries the C value "or is omitted"): a floating-point constant only for variables whose Rust type IS a float
+        # (`long double` / `__float128` / `_Float16` are integers or structs of their size: found and repaired F32)
+        {"kind": "fn", "file": "bindgen/ir/var.rs", "name": "var_is_float_constant", "impl": r"^impl ClangSubItemParser for Var$", "ret": "r",
+         "closure": {"enclosing": "parse", "anchor": "let is_float =", "nth": 0, "stmt": "let",
+                     "signature": "fn var_is_float_constant(canonical_ty: Option<&Type>, is_integer: bool) -> (r: bool)",
+                     "prefix": "{", "suffix": "; is_float }"},
+         "subst": [(r"re:(?s)canonical_ty\.is_some_and\(\|t\|\s*(.*?)\)\s*;", r"(match canonical_ty { Some(t) => \1, None => false });", 1, "R7 Option::is_some_and")],
+         "ensures": ["r ==> canonical_ty.is_some() && (canonical_ty.unwrap().s_kind() == TypeKind::Float(FloatKind::Float) || canonical_ty.unwrap().s_kind() == TypeKind::Float(FloatKind::Double))"]},
+        # C05: "Function-like macros are never emitted as constants": whatever callbacks are registered, a function-like macro
+        # does not reach the expression evaluator (statements R18, from the check up to the use of the value)
+        {"kind": "fn", "file": "bindgen/ir/var.rs", "name": "macro_value", "impl": r"^impl ClangSubItemParser for Var$", "ret": "r",
+         "closure": {"enclosing": "parse", "anchor": "for callbacks in &ctx.options().parse_callbacks {", "nth": 0, "stmt": "until", "until": "let Some((id, value)) = value else",
+                     "signature": "fn macro_value(ctx: &mut BindgenContext, cursor: clang::Cursor) -> (r: Result<Option<MacroVal>, ParseError>)",
+                     "prefix": "{", "suffix": "Ok(value) }"},
+         "subst": [("for callbacks in &ctx.options().parse_callbacks", "let mut it = CallbackCursor::new(ctx); while it.has_next()", 1, "R13 (any number of callbacks, including none)")],
+         "loops": {0: {"body_start": "let callbacks = it.next_item();", "decreases": "it.remaining()"}},
+         "ensures": ["clang::s_fn_like(cursor) ==> r.is_err()"]},
+
         {"kind": "fn", "file": "bindgen/ir/var.rs", "name": "char_macro_arm", "impl": r"^impl ClangSubItemParser for Var$", "ret": "r",
          "closure": {"enclosing": "parse", "anchor": "EvalResult::Char(c) => {", "nth": 0,
                      "signature": "fn char_macro_arm(c: CChar) -> (r: Result<(TypeKind, VarType), ParseError>)",
